@@ -29,6 +29,8 @@ def enc(v):
         return {"$d": [[enc(k), enc(x)] for k, x in v.items()]}
     if isinstance(v, type):
         return {"$cls": v.__name__}
+    if type(v).__name__ == "_New":
+        return {"$new": v.cls.__module__ + "." + v.cls.__qualname__, "attrs": {k: enc(x) for k, x in v.attrs.items()}}
     return {"$r": repr(v), "$type": type(v).__name__}
 
 
@@ -46,6 +48,17 @@ def dec(v):
             return tuple(dec(x) for x in v["$t"])
         if "$d" in v:
             return {dec(k): dec(x) for k, x in v["$d"]}
+        if "$new" in v:
+            cls = resolve(v["$new"])
+            obj = cls.__new__(cls)
+            for k, x in v.get("attrs", {}).items():
+                try:
+                    setattr(obj, k, dec(x))
+                except Exception:      # noqa
+                    pass
+            return obj
+        if "$sym" in v or "$r" in v:
+            return None
         raise ValueError(f"cannot decode {v}")
     return v
 
@@ -95,9 +108,19 @@ def op_clause(task):
     argnames = task["argnames"]
     args = [dec(a) for a in task["args"]]
     env = dict(zip(argnames, args))
+    gl = {}
+    for dotted in c.globals_in:
+        modname, _, name = dotted.rpartition(".")
+        mod = importlib.import_module(modname)
+        if "old_" + name in task.get("extra", {}):
+            setattr(mod, name, dec(task["extra"]["old_" + name]))
+        env["old_" + name] = getattr(mod, name)
+        gl[name] = mod
     if c.requires is not None and not call_by_names(c.requires, env):
         return {"holds": None, "reason": "witness violates requires"}
     outcome, result, exc = run_call(fn, args)
+    for name, mod in gl.items():
+        env["new_" + name] = getattr(mod, name)
     clause = task["clause"]
     res = {"outcome": outcome}
     if clause == "raises_only":
